@@ -77,6 +77,15 @@ FACTS = {
         ('enter_failure_releases', 'elementpath/collations.py', 'CollationManager.__enter__', 'order', 'except locale.Error: ;; self._current_lc_collate = None ;; _locale_collate_lock.release() ;; raise xpath_error('),
         ('exit_restores_and_releases', 'elementpath/collations.py', 'CollationManager.__exit__', 'order', 'if self._current_lc_collate is not None: ;; locale.setlocale(locale.LC_COLLATE, self._current_lc_collate) ;; self._current_lc_collate = None ;; _locale_collate_lock.release()'),
     ],
+    'C01': [
+        ('following_context_kinds', 'elementpath/xpath_context.py', 'XPathContext.iter_followings', 'has', 'if isinstance(self.item, (ElementNode, TextNode, CommentNode, ProcessingInstructionNode)):'),
+        ('following_climbs_to_the_top', 'elementpath/xpath_context.py', 'XPathContext.iter_followings', 'order', 'while root.parent is not None and root is not self.root: ;; root = root.parent'),
+        ('following_skips_own_subtree', 'elementpath/xpath_context.py', 'XPathContext.iter_followings', 'order', 'descendants = set(self.item.iter_descendants()) ;; position = self.item.position ;; if position < item.position and item not in descendants:'),
+        ('preceding_from_owner_element', 'elementpath/xpath_context.py', 'XPathContext.iter_preceding', 'order', 'if isinstance(item, (AttributeNode, NamespaceNode)) and item.parent is not None: ;; item = item.parent'),
+        ('preceding_skips_ancestors', 'elementpath/xpath_context.py', 'XPathContext.iter_preceding', 'order', 'for self.item in root.iter_descendants(): ;; if self.item is item: ;; break ;; if self.item not in ancestors: ;; yield self.item'),
+        ('no_siblings_for_attributes', 'elementpath/xpath_context.py', 'XPathContext.iter_siblings', 'has', 'if item.parent is not None and (not isinstance(item, (AttributeNode, NamespaceNode))):'),
+        ('reverse_axis_positions', 'elementpath/xpath_tokens/axes.py', 'XPathAxis.select_with_focus', 'order', 'if self.reverse_axis: ;; context.size = context.position = len(results) ;; for context.item in results: ;; yield context.item ;; context.position -= 1'),
+    ],
     'C09': [
         ('normalize_space_xml_whitespace', 'elementpath/xpath1/_xpath1_functions.py', 'evaluate__normalize_space', 'has', "return ' '.join((x for x in re.split('[ \\t\\n\\r]+', arg) if x))"),
         ('normalize_space_no_unicode_split', 'elementpath/xpath1/_xpath1_functions.py', 'evaluate__normalize_space', 'lacks', '.split()'),
